@@ -30,7 +30,7 @@ impl<T: Sized> JoinHandle<T> {
     pub fn join(self) -> Option<T> {
         // The OS will change to futex value to 0 and then wake it when the thread finishes.
         unsafe {
-            futex_wait_fast(self.tsm.get_futex(), UNFINISHED);
+            wait_for_exit(self.tsm.get_futex());
             // The thread has completed, we have exclusive access to the memory.
             // Pack it into a box, then consume the box to get the value off the heap.
             let val = self.tsm.get_value::<T>().into_inner();
@@ -56,12 +56,23 @@ impl<T: Sized> Drop for JoinHandle<T> {
             {
                 // The thread got its work done first, we need to wait for it to exit, signalled
                 // by the OS through the futex, then we know we have exclusive access to the memory.
-                futex_wait_fast(self.tsm.get_futex(), UNFINISHED);
+                wait_for_exit(self.tsm.get_futex());
                 // Nobody will consume the thread's result, drop it before releasing its slot.
                 drop(self.tsm.get_value::<T>().into_inner());
                 self.tsm.dealloc();
             }
         }
+    }
+}
+
+/// Wait until the kernel has cleared the thread's tid word, which it does when the thread is gone.
+/// A wake alone isn't enough to go on: the kernel clears an exiting thread's word and wakes its
+/// futex in two steps, and the wake of a thread whose shared memory was freed in between can
+/// arrive at the shared memory of a later thread that got the same address.
+#[inline]
+fn wait_for_exit(futex: &AtomicU32) {
+    while futex.load(Ordering::Acquire) == UNFINISHED {
+        futex_wait_fast(futex, UNFINISHED);
     }
 }
 
